@@ -176,7 +176,10 @@ func TestVerifC19Concurrent(t *testing.T) {
 			}
 		}
 		r.Bound("concurrent_scenarios", len(scenarios))
-		r.Bound("concurrent_preemptions", vrt.Pick(r, "unbounded", "unbounded"))
+		// The handler's own statements (ServeHTTP and the Rewrite function) are
+		// scheduling points too, so the interleavings are bounded by
+		// preemptions rather than explored without a bound.
+		r.Bound("concurrent_preemptions", vrt.Pick(r, "3", "pairs 4, triples 2"))
 		execs := 0
 		for si, sc := range scenarios {
 			if si%nshards != shard {
@@ -184,7 +187,11 @@ func TestVerifC19Concurrent(t *testing.T) {
 			}
 			var env *c19cEnv
 			found := 0
-			st := xsched.Explore(xsched.Config{MaxPreemptions: -1, MaxDeviations: 0, Stop: r.Expired},
+			pre := vrt.Pick(r, 3, 4)
+			if len(sc) > 2 {
+				pre = 2
+			}
+			st := xsched.Explore(xsched.Config{MaxPreemptions: pre, MaxDeviations: 0, Stop: r.Expired},
 				func(s *xsched.Sched) {
 					if execs++; execs%5000 == 0 {
 						runtime.GC()
